@@ -25,6 +25,7 @@ ErrorLaws(e) ==
 Judge(e) ==
   CASE e.op = "dec" -> IF e.panics # <<>> THEN "panic"
                        ELSE IF ~ErrorLaws(e) THEN "error-laws"
+                       ELSE IF e.errFirst # -1 /\ (e.errFirst = 1) # (e.failIdx # 0) THEN "error-layer-depends-on-first-accessor"
                        ELSE IF ~e.inputIntact THEN "input-modified"
                        ELSE "ok"
     [] e.op = "lz"  -> IF e.same THEN "ok" ELSE "lazy-ne-eager"
